@@ -190,7 +190,7 @@ double resetOneBranchMeasure(const runtime::QasmSimulator& pre, int q, SimStats&
         if (1 - p1 < 1e-12) return 1;
         a.resetBranch(q, 0);
         b.resetBranch(q, 1);
-        double d0 = refq::maxDiff(a.a, c.m_state), d1 = refq::maxDiff(b.a, c.m_state);
+        double d0 = refq::maxDiffUpToPhase(a.a, c.m_state), d1 = refq::maxDiffUpToPhase(b.a, c.m_state);
         return d1 < d0 ? 1 : 0;
     };
     int lo = branchFor(0.0), hi = branchFor(std::nextafter(1.0, 0.0));
@@ -221,7 +221,7 @@ void runSimHistory(const std::vector<SimOp>& ops, const std::string& property, s
         for (auto& v : real.m_state) { if (!std::isfinite(v.real()) || !std::isfinite(v.imag())) fin = false; nrm += std::norm(v); }
         if (!fin) { push("non_finite_amplitude", "C03", std::string("after ") + after + " (op " + std::to_string(i) + ")"); return false; }
         if (std::fabs(nrm - 1) > 1e-9) { push("norm_not_one", "C03", std::string("after ") + after + " (op " + std::to_string(i) + "): |psi|^2=" + refq::fd(nrm)); return false; }
-        double d = refq::maxDiff(model.a, real.m_state);
+        double d = refq::maxDiffUpToPhase(model.a, real.m_state);
         if (d > 1e-9) { push(std::string("state_mismatch_after_") + after, owner, "op " + std::to_string(i) + ": distance " + refq::fd(d)); return false; }
         return true;
     };
@@ -344,13 +344,12 @@ void runSimHistory(const std::vector<SimOp>& ops, const std::string& property, s
                 SV b0 = model, b1 = model;
                 double d0 = 1e9, d1 = 1e9;
                 bool has0 = 1 - p1 > 0, has1 = p1 > 0;
-                if (has0) { b0.resetBranch(o.q, 0); d0 = refq::maxDiff(b0.a, real.m_state); }
-                if (has1) { b1.resetBranch(o.q, 1); d1 = refq::maxDiff(b1.a, real.m_state); }
+                if (has0) { b0.resetBranch(o.q, 0); d0 = refq::maxDiffUpToPhase(b0.a, real.m_state); }
+                if (has1) { b1.resetBranch(o.q, 1); d1 = refq::maxDiffUpToPhase(b1.a, real.m_state); }
                 bool distinguishable = has0 && has1 && refq::maxDiffUpToPhase(b0.a, b1.a) > 1e-6;
                 int br = d1 < d0 ? 1 : 0;
-                bool tiny = distinguishable && (br ? p1 : 1 - p1) <= 1e-9;
-                bool anyTiny = distinguishable && std::min(p1, 1 - p1) <= 1e-9;
-                if (std::min(d0, d1) > 1e-9 || tiny) {
+                bool anyTiny = has0 && has1 && std::min(p1, 1 - p1) <= 1e-9;
+                if (std::min(d0, d1) > 1e-9) {
                     bool fin = true;
                     double nr = 0;
                     for (auto& v : real.m_state) { if (!std::isfinite(v.real()) || !std::isfinite(v.imag())) fin = false; nr += std::norm(v); }
@@ -370,6 +369,7 @@ void runSimHistory(const std::vector<SimOp>& ops, const std::string& property, s
                     return;
                 }
                 model = br ? b1 : b0;
+                if (has0 && has1 && (br ? p1 : 1 - p1) <= 1e-9) ++st.noiseBranches;
                 if (model.prob1(o.q) > 1e-12) { push("reset_target_not_zero", "C04", "op " + std::to_string(i)); return; }
                 if (genuine && distinguishable && used == 2 && g_orientation >= 0) {
                     double r = refq::wordsToUnit((uint32_t)bits, (uint32_t)(bits >> 32));
@@ -453,6 +453,8 @@ struct ProgRun {
     std::vector<qh::Finding> findings;
     bool desync = false;
     uint64_t boundaries = 0;
+    uint64_t reuseBefore = 0;  // model reuse events before the op that has just been applied
+    bool echoOff = false;
     sim::Hash evlog;
     std::string property;
 };
@@ -472,7 +474,7 @@ qh::Observation observe(runtime::RuntimeEvaluator* ev) {
             const std::string& n = kv.first;
             const runtime::Value& v = kv.second.value;
             if (n.size() < 2 || !isdigit((unsigned char)n[1])) continue;
-            if (n[0] == 'q' && v.type == runtime::Value::Type::Qubit) ob.declIndices[n] = {v.qubit};
+            if ((n[0] == 'q' || n[0] == 'a') && v.type == runtime::Value::Type::Qubit) ob.declIndices[n] = {v.qubit};
             else if (n[0] == 'r' && v.type == runtime::Value::Type::QubitArray) ob.declIndices[n] = v.qubitArray;
             else if ((n[0] == 'o' || n[0] == 'p') && v.type == runtime::Value::Type::Object && v.objectValue) {
                 std::vector<int> idx;
@@ -488,7 +490,7 @@ qh::Observation observe(runtime::RuntimeEvaluator* ev) {
 }
 
 std::string declName(const qh::DeclInfo& d, size_t id) {
-    static const char pre[] = {'q', 'r', 'o', 'p'};
+    static const char pre[] = {'q', 'r', 'o', 'p', 'a'};
     return std::string(1, pre[d.kind]) + std::to_string(id);
 }
 
@@ -510,13 +512,13 @@ void boundaryChecks(ProgRun& pr, const qh::Observation& ob, int done) {
     if (!fin) { push("non_finite_amplitude", "C03", "after " + after + " (op " + std::to_string(done) + ")"); pr.desync = true; return; }
     if (std::fabs(nrm - 1) > 1e-9) { push("norm_not_one", "C03", "after " + after + " (op " + std::to_string(done) + "): |psi|^2=" + refq::fd(nrm)); pr.desync = true; return; }
     // lockstep state
-    double d = refq::maxDiff(I.sv.a, ob.state);
+    double d = refq::maxDiffUpToPhase(I.sv.a, ob.state);
     if (d > 1e-9) {
         std::string owner = "C05";
         if (last) {
             if (last->kind == qh::MEAS_STMT || last->kind == qh::MEAS_EXPR || last->kind == qh::MEAS_ARR) owner = "C02";
             else if (last->kind == qh::RESET || last->kind == qh::DROP) owner = "C04";
-            else if (last->kind <= qh::NEWOBJ2) owner = "C03";
+            else if (qh::isDecl(last->kind) || last->kind == qh::CYCLE) owner = I.reuseEvents > pr.reuseBefore ? "C04" : "C03";
         }
         push("state_mismatch_after_" + after, owner, "op " + std::to_string(done) + ": distance " + refq::fd(d) + " between evaluator state and reference model");
         pr.desync = true;
@@ -537,11 +539,23 @@ void boundaryChecks(ProgRun& pr, const qh::Observation& ob, int done) {
             pr.desync = true;
             return;
         }
+        if (I.decls[id].kind == 4) continue;  // aliases are judged below
         for (int x : it->second) {
             if (owner.count(x)) { push("two_declarations_share_qubit", "C03", name + " and " + owner[x] + " both hold q[" + std::to_string(x) + "]"); pr.desync = true; return; }
             owner[x] = name;
             for (int f : ob.freeList)
                 if (f == x) { push("live_qubit_on_free_list", "C03", name + " holds q[" + std::to_string(x) + "] which is on the free list"); pr.desync = true; return; }
+        }
+    }
+    // an alias copied from an object's field must not come to share a qubit with another declaration
+    for (auto& kv : I.aliasTarget) {
+        int x = I.declIdx[(size_t)kv.first][0];
+        auto ow = owner.find(x);
+        if (ow == owner.end()) continue;
+        std::string targetName = declName(I.decls[(size_t)kv.second], (size_t)kv.second);
+        if (ow->second != targetName) {
+            push("alias_shares_recycled_qubit", "C03", "a" + std::to_string(kv.first) + " was copied from " + targetName + ".q and still holds q[" + std::to_string(x) + "], which now belongs to " + ow->second + " (after op " + std::to_string(done) + ")");
+            return;
         }
     }
     {
@@ -580,6 +594,7 @@ void progObserver(runtime::RuntimeEvaluator* ev, void* stmt, uint64_t, bool) {
     qh::Observation ob = observe(ev);
     ob.words.assign(g_rng.history.begin() + (long)pr->wordMark, g_rng.history.end());
     if (k > 0 && pr->modelPos == k - 1) {
+        pr->reuseBefore = pr->interp.reuseEvents;
         pr->interp.apply(pr->plan->ops[(size_t)k - 1], k - 1, ob, false, pr->findings);
         pr->modelPos = k;
         if (pr->interp.expectError) {
@@ -655,6 +670,7 @@ ProgOutcome runProgram(const qh::Plan& plan, const std::string& property, uint64
     gcs::beginRun(sched);
     {
         runtime::RuntimeEvaluator ev;
+        if (run % 7 == 3) ev.setEcho(false);  // as multi-shot mode does for every shot
         try {
             ev.execute(*prog);
             R.status = 0;
@@ -798,9 +814,21 @@ bool cliQasmFileCheck(const qh::Plan& plan, int shots, std::string& detail) {
 // ================================================================================================
 // plans, runs, shrinking
 // ================================================================================================
+// A state that departs from the reference semantics of the logged operations cannot be reproduced by
+// replaying the emitted text either, so C05 owns the state-level findings of C02-C04 as well.
+bool stateLevel(const std::string& cls) {
+    return cls.rfind("state_mismatch_after_", 0) == 0 || cls == "norm_not_one" || cls == "non_finite_amplitude" || cls == "reset_post_state_matches_no_branch" || cls == "zero_probability_outcome" ||
+           cls == "collapsed_state_not_in_outcome_subspace" || cls == "state_size_wrong";
+}
+bool owns(const std::string& property, const std::string& owner, const std::string& cls) {
+    if (owner == property) return true;
+    if (property == "C05" && stateLevel(cls) && (owner == "C02" || owner == "C03" || owner == "C04")) return true;
+    if (property == "C03" && (cls == "norm_not_one" || cls == "non_finite_amplitude" || cls == "state_size_wrong")) return true;
+    return false;
+}
 std::string ownerOf(const std::vector<qh::Finding>& f, const std::string& property, qh::Finding& first) {
     for (auto& x : f)
-        if (x.owner == property) { first = x; return x.cls; }
+        if (owns(property, x.owner, x.cls)) { first = x; return x.cls; }
     return "";
 }
 
@@ -827,6 +855,9 @@ qh::GenOptions genOptionsFor(const std::string& property, sim::Rng& knob) {
     if (property == "C03") { go.objectShare = 0.45; go.resetShare = 0.15; }
     if (property == "C02") { go.boundaryDrawProb = 0.3; }
     go.tracked = knob.chance(0.3);
+    if (property == "C04") go.aliasProb = knob.chance(0.3) ? 0.12 : 0.0;
+    if (property == "C03") { go.aliasProb = knob.chance(0.1) ? 0.12 : 0.0; go.cycleProb = knob.chance(0.4) ? 0.1 : 0.0; }
+    if (property == "C05" || property == "C04") go.cycleProb = knob.chance(0.15) ? 0.08 : 0.0;
     return go;
 }
 
@@ -834,7 +865,7 @@ std::string simClass(const std::vector<SimOp>& ops, const std::string& property,
     std::vector<Finding> f;
     runSimHistory(ops, property, f, st);
     for (auto& x : f)
-        if (x.owner == property) { detail = x.detail; return x.cls; }
+        if (owns(property, x.owner, x.cls)) { detail = x.detail; return x.cls; }
     return "";
 }
 std::string progClass(const qh::Plan& p, const std::string& property, uint64_t seed, uint64_t run, std::string& detail, ProgOutcome* outp = nullptr) {
@@ -975,7 +1006,8 @@ void runOne(const sim::Options& opt, uint64_t run, sim::RunReport& rep) {
         std::vector<int> alive;  // decl kinds
         std::vector<bool> isAlive;
         for (auto& o : ops) {
-            if (o.kind <= qh::NEWOBJ2) { alive.push_back(o.kind); isAlive.push_back(true); continue; }
+            if (qh::isDecl(o.kind)) { if (o.kind == qh::ALIAS && !(o.h2.decl < (int)alive.size() && isAlive[(size_t)o.h2.decl])) return false; alive.push_back(o.kind); isAlive.push_back(true); continue; }
+            if (o.kind == qh::CYCLE) continue;
             auto ok = [&](const qh::Handle& h) { return h.decl < (int)alive.size() && isAlive[(size_t)h.decl]; };
             if (!ok(o.h)) return false;
             if (o.kind == qh::CX && !ok(o.h2)) return false;
@@ -983,20 +1015,20 @@ void runOne(const sim::Options& opt, uint64_t run, sim::RunReport& rep) {
         }
         // every object must be dropped before the end
         for (size_t d = 0; d < alive.size(); ++d)
-            if (isAlive[d] && alive[d] >= qh::NEWOBJ1) return false;
+            if (isAlive[d] && (alive[d] == qh::NEWOBJ1 || alive[d] == qh::NEWOBJ2)) return false;
         return true;
     };
     std::function<bool(const std::vector<qh::Op>&)> fails = [&](const std::vector<qh::Op>& ops) {
         // keep declarations (renumbering), drop only others
         size_t declsA = 0, declsB = 0;
-        for (auto& o : plan.ops) if (o.kind <= qh::NEWOBJ2) ++declsA;
-        for (auto& o : ops) if (o.kind <= qh::NEWOBJ2) ++declsB;
+        for (auto& o : plan.ops) if (qh::isDecl(o.kind)) ++declsA;
+        for (auto& o : ops) if (qh::isDecl(o.kind)) ++declsB;
         if (declsA != declsB) return false;
         if (!valid(ops)) return false;
         // bit variables used by IFGATE must still be defined before use
         std::set<int> defined;
         for (auto& o : ops) {
-            if (o.kind == qh::MEAS_EXPR) defined.insert(o.bitvar);
+            if (o.kind == qh::MEAS_EXPR && o.bitvar >= 0) defined.insert(o.bitvar);
             if (o.kind == qh::IFGATE && !defined.count(o.cond)) return false;
         }
         qh::Plan c;
